@@ -59,8 +59,8 @@ CHECKS = {
    note="Trusted: pause-point placement (between critical sections only), the canary/stuck-detector verdict. Orderings not in the script list are only sampled by the stress engine.",
    ref="DESIGN.md section 4 C02"),
  "C17": dict(level="exploration", technique="frame oracle over a unix stream pair (round trip; declared-vs-actual length table; panic capture) and request/acknowledgement/call-log sequence oracle against the real restarter with a recording Instance, dropped-child recovery, hostile-then-valid frames; monitored child",
-   text="Every type x payload length round-trips exactly; truncated frames are rejected, frames with trailing bytes are never read as another message, nothing panics; for all request sequences up to length 3 (4 thorough) over known and unknown types the reply type matches and the Instance call log equals the requested steps once and in order (terminate: reply, then SIGTERM); a child dropped at 7 points never prevents a later full hand-over; malformed frames never trigger a step nor alter later valid frames.",
-   note="Trusted: lock-step driver (the protocol is a synchronous RPC on a stream socket); SIGTERM replaced by a recorded call. The two-process smoke test with the real binary is not built.",
+   text="Every type x payload length round-trips exactly; truncated frames are rejected, frames with trailing bytes are never read as another message, nothing panics; for all request sequences up to length 3 (4 thorough) over known and unknown types the reply type matches and the Instance call log equals the requested steps once and in order (terminate: reply, then SIGTERM); a child dropped at 7 points never prevents a later full hand-over; malformed frames never trigger a step nor alter later valid frames; two real processes built from cmd/samaritan hand over the admin and service listeners (checked from /proc socket ownership) while an established connection keeps working, and the old process exits 0.",
+   note="Trusted: lock-step driver (the protocol is a synchronous RPC on a stream socket); SIGTERM replaced by a recorded call in the in-process part; the smoke test uses the real binary and real signals.",
    ref="DESIGN.md section 4 C17"),
  "C16": dict(level="exploration", technique="server-side set fold vs dependency fold at quiescence over the real subscription client with a scripted stream factory (failures, slow sends); progress-relative deadline + stack-dump stuck detector for calls; retry observation; plain and -race children (scope config/discovery.go)",
    text="PRNG Subscribe/Unsubscribe histories (more changes than the queue holds while no stream can be established, Sub/Unsub/Sub bursts, slow server batching, scripted factory/send/recv failures): every call returns (else two stack dumps decide deadlock), a stream is re-created after every failure, and once the last call returned the set subscribed on the live stream (subscribe lists minus unsubscribe lists of that stream) equals the dependency set within the deadline.",
